@@ -22,8 +22,13 @@ def run_history(ops, start_with_runtime):
     types = {"A": A, "B": Bq}
     out = {}
 
+    taggers = {}
+
     def tagger(t):
-        return lambda req: t
+        # one handler object per tag: a derived runtime may be given the very object that is (or was) a registered default
+        if t not in taggers:
+            taggers[t] = lambda req: t
+        return taggers[t]
 
     def body():
         observed, expected = [], []
@@ -108,7 +113,8 @@ def replay(case):
 
 
 ALPHABET = [("new", "r", "A", "r"), ("new", "s", "A", "s"), ("derive", "d", None, "A", "d"), ("derive", "e", "r", "B", "e"),
-            ("enter", "r"), ("enter", "s"), ("enter", "d"), ("enter", "e"), ("exit", False), ("exit", True),
+            ("derive", "f", None, "A", "defA"), ("derive", "g", "r", "A", "defA"), ("derive", "h", "r", "B", "defB"),
+            ("enter", "r"), ("enter", "s"), ("enter", "d"), ("enter", "e"), ("enter", "f"), ("enter", "g"), ("enter", "h"), ("exit", False), ("exit", True),
             ("default", "A", "defA"), ("default", "B", "defB"), ("default", "A", "defA2"), ("run", "A"), ("run", "B")]
 
 
@@ -121,6 +127,9 @@ def search(seed=0, budget=4000, max_len=7):
         [("run", "B"), ("default", "B", "defB"), ("run", "B")],
         [("default", "A", "defA"), ("run", "A"), ("default", "A", "defA2"), ("run", "A")],
         [("new", "r", "A", "r"), ("derive", "e", "r", "B", "e"), ("enter", "r"), ("run", "B"), ("exit", True), ("enter", "e"), ("run", "A"), ("run", "B")],
+        # a runtime derived with the handler that happens to be the registered default keeps THAT handler when the default changes
+        [("default", "A", "defA"), ("derive", "f", None, "A", "defA"), ("default", "A", "defA2"), ("enter", "f"), ("run", "A"), ("exit", False), ("run", "A")],
+        [("default", "A", "defA"), ("new", "r", "A", "r"), ("derive", "g", "r", "A", "defA"), ("default", "A", "defA2"), ("enter", "g"), ("run", "A")],
     ]
     for swr in (False, True, "inherit"):
         for h in directed:
